@@ -377,10 +377,15 @@ def rule_r6(ctx: Ctx, g: CallGraph) -> None:
             a = fn.node.args
             params = [x.arg for x in a.posonlyargs + a.args + a.kwonlyargs]
             local = [n.value for n in ast.walk(fn.node) if isinstance(n, ast.Assign) and any(isinstance(t, ast.Name) and t.id == e.id for t in n.targets)]
-            if local:
-                rs = [bounded(fn, v_, depth, seen) for v_ in local]
+            if local and ("local", fn.qualname, e.id) not in seen:
+                # (a rebinding in terms of itself - `d = int(d)` - leads back here once: the second time the name stands for
+                # what it was bound to before, i.e. the parameter)
+                seen_l = seen | {("local", fn.qualname, e.id)}
+                rs = [bounded(fn, v_, depth, seen_l) for v_ in local]
                 bad = [r for r in rs if r is not True]
-                return True if not bad else bad[0]
+                if bad or e.id not in params or not any(any(isinstance(x, ast.Name) and x.id == e.id for x in ast.walk(v_)) for v_ in local):
+                    return True if not bad else bad[0]
+                return True
             if e.id in params:
                 if (fn.qualname, e.id) in seen:
                     return True
@@ -486,10 +491,18 @@ def rule_r7(ctx: Ctx) -> None:
         st = mk("structure", "_composite.StructureType", name="ns.A", version=_version(1, 0), attributes=[fa, fb], deprecated=False, fixed_port_id=None, source_file_path=APath("/r/ns/A.1.0.dsdl"), has_parent_service=False, doc="")
         subjects.append(("structure {uint8[2**40] a; uint16[<=2**40] b}", st))
         small = mk("structure", "_composite.StructureType", name="ns.B", version=_version(1, 0), attributes=[mk("field", "_attribute.Field", u8, "x")], deprecated=False, fixed_port_id=None, source_file_path=APath("/r/ns/B.1.0.dsdl"), has_parent_service=False, doc="")
+        # zero-length elements: the set is {0} whatever the capacity - its *value* is tiny, its operator tree is not
+        empty = mk("structure", "_composite.StructureType", name="ns.E", version=_version(1, 0), attributes=[], deprecated=False, fixed_port_id=None, source_file_path=APath("/r/ns/E.1.0.dsdl"), has_parent_service=False, doc="")
+        if not isinstance(empty, tuple):
+            ea = mk("Empty[2**40]", "_array.FixedLengthArrayType", empty, big)
+            subjects.append(("Empty[2**40] (zero-length elements)", ea))
+            if not isinstance(ea, tuple):
+                fe = mk("field", "_attribute.Field", ea, "e")
+                subjects.append(("structure {Empty[2**40] e; uint8 x}", mk("structure", "_composite.StructureType", name="ns.H", version=_version(1, 0), attributes=[fe, mk("field", "_attribute.Field", u8, "x")], deprecated=False, fixed_port_id=None, source_file_path=APath("/r/ns/H.1.0.dsdl"), has_parent_service=False, doc="")))
         if not isinstance(small, tuple):
             subjects.append(("delimited, extent 8 * 2**40", mk("delimited", "_composite.DelimitedType", small, 8 * big)))
             subjects.append(("delimited, extent 8 * 2**40 (again)", mk("delimited", "_composite.DelimitedType", small, 8 * big)))
-    queries = ["x.bit_length_set.min", "x.bit_length_set.max", "x.bit_length_set.fixed_length", "x.bit_length_set.is_aligned_at_byte()", "x.bit_length_set.is_aligned_at(8)", "x.alignment_requirement", "x == x", "hash(x)", "x.bit_length_set == y.bit_length_set", "hash(x.bit_length_set)", "str(x)"]
+    queries = ["x.bit_length_set.min", "x.bit_length_set.max", "x.bit_length_set.fixed_length", "x.bit_length_set.is_aligned_at_byte()", "x.bit_length_set.is_aligned_at(8)", "x.bit_length_set.is_aligned_at(64)", "sorted(x.bit_length_set % 1000)", "sorted(x.bit_length_set % 7)", "x.alignment_requirement", "x == x", "hash(x)", "x.bit_length_set == y.bit_length_set", "hash(x.bit_length_set)", "str(x)"]
     n = 0
     for i, (label, obj) in enumerate(subjects):
         bad = []
